@@ -256,6 +256,307 @@ def real_worker(case):
     return out
 
 
+def hist_worker(case):
+    """a history on ONE Simulator(use_jacobian=True): parameter updates through every method that forwards to the
+    model, re-initialisations, and calls of whatever the integrator currently holds as its Jacobian"""
+    import logging
+    import warnings
+
+    warnings.filterwarnings("ignore")
+    from mxlpy import Simulator
+
+    content = with_decl(case["content"])
+    try:
+        m = build_model(content)
+        m.get_initial_conditions()
+    except Exception as e:  # noqa: BLE001
+        return {"build": _exc(e)}
+    nv = len(content["vars"])
+    lg = logging.getLogger("mxlpy.simulator")
+    old_level = lg.level
+    lg.setLevel(logging.ERROR)
+    # how often the closure converts the model again: counted at the name `_compile_jac` looks up
+    import mxlpy.simulator as simmod
+
+    conversions = [0]
+    orig_convert = simmod.to_symbolic_model
+
+    def counted(model_):
+        conversions[0] += 1
+        return orig_convert(model_)
+
+    simmod.to_symbolic_model = counted
+    try:
+        try:
+            sim = Simulator(m, use_jacobian=True)
+        except ZeroDivisionError as e:
+            return {"build": _exc(e)}
+        except Exception as e:  # noqa: BLE001
+            return {"init": _exc(e)}
+        out = {"init": {"ok": sim.integrator.jacobian is not None}, "outs": []}
+        for op in case["hist"]:
+            try:
+                if op[0] == "set":
+                    _, k, v, api, arg = op
+                    v = float(Fraction(v))
+                    if api == "update_parameter":
+                        sim.update_parameter(k, v)
+                    elif api == "update_parameters":
+                        sim.update_parameters({k: v})
+                    elif api == "scale_parameter":
+                        sim.scale_parameter(k, float(Fraction(arg)))
+                    elif api == "scale_parameters":
+                        sim.scale_parameters({k: float(Fraction(arg))})
+                    else:
+                        sim.model.update_parameter(k, v)
+                    out["outs"].append(None)
+                elif op[0] == "edit":
+                    # a structural edit of the model the Simulator holds, NOT followed by a re-initialisation
+                    edit_model(sim.model, op[1])
+                    out["outs"].append(None)
+                elif op[0] == "reinit":
+                    if op[1] == "clear_results":
+                        sim.clear_results()
+                    else:
+                        k0 = content["vars"][0][0]
+                        sim.update_variable(k0, sim.y0[k0])
+                    # division by zero is outside the model: when building the model's cache (the first thing the
+                    # conversion does) divides by zero at the current parameter values, the Simulator falls back because
+                    # of that, not because the model does not convert -- the history stops here and is counted
+                    keep_ = sim.model._cache  # noqa: SLF001
+                    try:
+                        sim.model._create_cache()  # noqa: SLF001  (raises ZeroDivisionError -> handled below)
+                    finally:
+                        sim.model._cache = keep_  # noqa: SLF001  the closure watches this object: leave it in place
+                    out["outs"].append(None)
+                else:
+                    jf = sim.integrator.jacobian
+                    t, xs = float(Fraction(op[1])), [float(Fraction(v)) for v in op[2]]
+                    if jf is None:
+                        out["outs"].append({"ok": None})
+                    else:
+                        before = conversions[0]
+                        try:
+                            o_ = {"ok": _mat(jf(t, xs), nv)}
+                        except ZeroDivisionError:
+                            raise
+                        except Exception as e:  # noqa: BLE001
+                            # the exception would escape from the solver; the Simulator (and the closure) stay in use
+                            o_ = {"raised": _exc(e)["err"]}
+                        o_["conversions"] = conversions[0] - before
+                        out["outs"].append(o_)
+            except ZeroDivisionError:
+                out["outs"].append("ZeroDivisionError")
+                break
+            except Exception as e:  # noqa: BLE001
+                out["outs"].append(_exc(e))
+                break
+        return out
+    finally:
+        lg.setLevel(old_level)
+        simmod.to_symbolic_model = orig_convert
+
+
+def hist_contents(case):
+    """the content of the model before every operation of the history (parameter values and edits applied)"""
+    c = copy.deepcopy(case["content"])
+    out = []
+    for op in case["hist"]:
+        out.append(c)
+        if op[0] == "set":
+            c = copy.deepcopy(c)
+            for k, v in c["pars"]:
+                if k == op[1]:
+                    v.clear()
+                    v["v"] = op[2]
+        elif op[0] == "edit":
+            c = apply_edit(c, op[1])
+    return out
+
+
+def edited_since_compile(case, i) -> int:
+    """order-free oracle for the number of conversions during call `i`: 1 iff the model was updated / edited since the
+    closure was last in step with it.  Walking back from the call: a `set` / `edit` means yes (each discards the model's
+    cache object, also a `set` to the value the parameter already has); a re-initialisation or an earlier call on a
+    model that converts means no (the closure was compiled for that model there); an earlier call on a model that does
+    not convert raised and left nothing behind, so the search goes on."""
+    cs = hist_contents(case)
+    for j in range(i - 1, -1, -1):
+        op = case["hist"][j]
+        if op[0] in ("set", "edit"):
+            return 1
+        if op[0] == "reinit":
+            return 0
+        if op[0] == "call" and should_convert(cs[j]) == "ok":
+            return 0
+    return 0
+
+
+def gen_hist(rng, content, n_ops):
+    """operations on the plain parameters of `content` (values stay small positive dyadics, so that arithmetic is
+    exact and denominators rarely vanish), re-initialisations and Jacobian calls"""
+    cur = {k: Fraction(v["v"]) for k, v in content["pars"] if "v" in v}
+    ia = [k for k, v in content["pars"] if "v" not in v]
+    ops = []
+    calls = 0
+    cur_content = content
+    # user-defined (localised) functions are left alone: an edit would need a function of the same Python name
+    edits = all("py" not in f for f in _fns_of(content))
+    for i in range(n_ops):
+        r = rng.random()
+        if (r < 0.45 and (cur or ia)) and i < n_ops - 1:
+            if ia and rng.random() < 0.15:
+                # a parameter given by an initial assignment gets a plain value: the value tuple grows
+                k = rng.choice(ia)
+                ia.remove(k)
+                v = Fraction(rng.choice([1, 2, 3]))
+                cur[k] = v
+                ops.append(["set", k, num(v), rng.choice(["update_parameter", "update_parameters", "model"]), None])
+                continue
+            k = rng.choice(sorted(cur))
+            api = rng.choice(["update_parameter", "update_parameters", "scale_parameter", "scale_parameters", "model"])
+            if api.startswith("scale"):
+                f = Fraction(rng.choice([2, 4, Fraction(1, 2), 3, 1]))
+                v = cur[k] * f
+                arg = num(f)
+            else:
+                # now and then back to a value it had before (the closure must not serve the matrix of another value)
+                v = Fraction(rng.choice([1, 2, 3, 4, 5, Fraction(1, 2), cur[k]]))
+                arg = None
+            cur[k] = v
+            ops.append(["set", k, num(v), api, arg])
+        elif r < 0.57 and i < n_ops - 1 and edits:
+            # another rate law for a reaction / another function for a derived quantity, over names that stay symbols
+            base = [k for k, v in content["vars"]] + [k for k, v in content["pars"] if "v" in v]
+            if rng.random() < 0.3:
+                # the numeric model accepts `time`, the symbolic one has no such symbol: from now on the conversion raises
+                base = base + ["time", "time"]
+            rational = not is_poly(content)
+            if cur_content["derived"] and rng.random() < 0.4:
+                k, _old = rng.choice(cur_content["derived"])
+                new = _mk(rng, rng.choice(DER_FNS_POLY + (DER_FNS_RAT if rational else [])), base)
+                e = {"op": "update_derived", "name": k, "fn": new}
+            else:
+                k, _old = rng.choice(cur_content["rxns"])
+                new = _mk(rng, rng.choice(RATE_FNS_POLY + (RATE_FNS_RAT if rational else [])), base)
+                e = {"op": "update_reaction", "name": k, "fn": new}
+            cur_content = apply_edit(cur_content, e)
+            ops.append(["edit", e])
+        elif r < 0.68 and i < n_ops - 1:
+            ops.append(["reinit", rng.choice(["clear_results", "update_variable"])])
+        else:
+            ops.append(["call", str(rng.choice([0, 1, 2])), [str(rng.choice([1, 2, 3, 5])) for _ in content["vars"]]])
+            calls += 1
+    if not calls:
+        ops.append(["call", "0", ["1" for _ in content["vars"]]])
+    return ops
+
+
+def hist_req(case):
+    cs = hist_contents(case)
+    ops = []
+    for i, op in enumerate(case["hist"]):
+        if op[0] == "set":
+            ops.append(op[:3])
+        elif op[0] == "reinit":
+            ops.append(op[:1])
+        elif op[0] == "edit":
+            ops.append(["edit", wire_content(apply_edit(cs[i], op[1]))])
+        else:
+            ops.append(op)
+    return {"op": "c12", "content": wire_content(case["content"]), "points": [], "hist": ops}
+
+
+def judge_hist(ctx, case, R, M):
+    """R = the real Simulator's outputs along the history, M = the Lean state machine run with the generated glue
+    facts, S = per call what a freshly built Simulator on the content of that moment returns (Lean `callJac`)"""
+    sub = {"content": case["content"], "hist": case["hist"]}
+    if "build" in R:
+        ctx.hist["hist_skipped_build"] = ctx.hist.get("hist_skipped_build", 0) + 1
+        return
+    exact = is_poly(case["content"])
+    ncalls = sum(1 for op in case["hist"] if op[0] == "call")
+    ctx.count(sub, f"history-ops{min(len(case['hist']), 9)}-calls{min(ncalls, 5)}-{'jac' if R.get('init', {}).get('ok') else 'nojac'}", True)
+    if "init" in R and "err" in R["init"]:
+        ctx.violation(sub, R["init"], "Simulator(use_jacobian=True) raised instead of falling back")
+        return
+    S_init = should_convert(case["content"]) == "ok"
+    ctx.judge(sub, R["init"]["ok"], S_init, None if M is None else M["hist"]["init"].get("ok"),
+              what="history: a Jacobian is installed iff the model converts")
+    mouts = None if M is None else M["hist"].get("outs", [])
+    if M is not None and M["hist"].get("run") is not None:
+        # `runG` (the whole history at once, what the theorem is stated over) = the step-by-step outputs used below
+        ctx.hist["hist_runG_compared"] = ctx.hist.get("hist_runG_compared", 0) + 1
+        if M["hist"]["run"] != [o.get("m") for o in mouts]:
+            ctx.add_drift(sub, [o.get("m") for o in mouts], M["hist"]["run"], "Lean runG differs from iterated stepG")
+    for i, (op, ro) in enumerate(zip(case["hist"], R["outs"])):
+        mo = None if mouts is None or i >= len(mouts) else mouts[i]
+        kind = "set:" + op[3] if op[0] == "set" else "edit:" + op[1]["op"] if op[0] == "edit" else op[0]
+        ctx.hist["hist_op:" + kind] = ctx.hist.get("hist_op:" + kind, 0) + 1
+        if ro == "ZeroDivisionError":
+            ctx.hist["hist_stopped_ZeroDivisionError"] = ctx.hist.get("hist_stopped_ZeroDivisionError", 0) + 1
+            return
+        if isinstance(ro, dict) and "err" in ro:
+            if op[0] == "reinit" and ro["err"][0] == "ZeroDivisionError":
+                return
+            ctx.violation(dict(sub, upto=i), ro, f"history: {op[0]} raised")
+            return
+        if op[0] != "call":
+            continue
+        if mo is None:
+            sv = mv = None
+        else:
+            sv = mo.get("s")
+            mv = mo.get("m", mo)
+        if sv == "skip":
+            ctx.hist["hist_call_skipped_zero_denominator"] = ctx.hist.get("hist_call_skipped_zero_denominator", 0) + 1
+            continue
+        if sv is None:
+            # no driver: R alone says nothing
+            continue
+        # a call that raises hands no matrix over: allowed exactly when a fresh Simulator on this content would not hand
+        # one over either (the conversion fails: it has no Jacobian, or its `jac_fn` raises)
+        NOMAT = "no matrix"
+        s_ = (sv.get("ok") if sv.get("ok") is not None else NOMAT) if "ok" in sv else NOMAT
+        # the integrator has a Jacobian at all only if the model converted when the integrator was last built
+        # (construction / clear_results / update_variable); after a fall-back it runs without one until it is built again,
+        # whatever the model has become since (allowed: "falls back with a warning rather than using wrong equations")
+        built_at = max([j for j in range(i) if case["hist"][j][0] == "reinit"], default=None)
+        content_then = case["content"] if built_at is None else hist_contents(case)[built_at]
+        if should_convert(content_then) != "ok":
+            s_ = NOMAT
+            ctx.hist["hist_call_without_jacobian_after_fallback"] = ctx.hist.get("hist_call_without_jacobian_after_fallback", 0) + 1
+            if "raised" in ro or ro.get("ok") is not None:
+                ctx.violation(dict(sub, upto=i), ro, "history: the integrator has a Jacobian although the model did not convert when it was built")
+                return
+        if isinstance(mv, dict) and "raised" in mv:
+            m_ = NOMAT
+        else:
+            m_ = mv.get("ok") if isinstance(mv, dict) and "ok" in mv else mv
+            m_ = NOMAT if m_ is None else m_
+        if "raised" in ro:
+            r_ = NOMAT
+            ctx.hist["hist_call_raised:" + ro["raised"][0]] = ctx.hist.get("hist_call_raised:" + ro["raised"][0], 0) + 1
+        else:
+            r_ = NOMAT if ro["ok"] is None else ro["ok"]
+        if isinstance(mv, dict) and (("raised" in mv) != ("raised" in ro)):
+            ctx.add_drift(dict(sub, upto=i), ro, mv, "history: the real closure raises / the Lean closure does not (or vice versa)")
+        ctx.hist["hist_call_judged"] = ctx.hist.get("hist_call_judged", 0) + 1
+        if "conversions" in ro and isinstance(mo, dict) and "c" in mo:
+            # the conversion runs once per change of the model, not once per call (Lean: `recompilesG`,
+            # theorem C12_no_needless_recompile); S = "something was edited since the last call that compiled"
+            want = 1 if mo["c"] else 0
+            ctx.hist[f"hist_conversions:{ro['conversions']}"] = ctx.hist.get(f"hist_conversions:{ro['conversions']}", 0) + 1
+            vv = ctx.judge(dict(sub, upto=i), ro["conversions"], edited_since_compile(case, i), want,
+                           what="history: conversions of the model during this Jacobian call (1 iff the model changed since the last compilation)")
+            if vv == "violation":
+                return
+        v = ctx.judge(dict(sub, upto=i), _snap(r_, s_, exact) if NOMAT not in (r_, s_) else r_, s_, m_,
+                      what="history: the matrix the integrator gets = Jacobian of the model's current content")
+        if v == "violation":
+            return
+
+
 def apply_edit(content, edit):
     """the content after the edit (what M and S are asked about)"""
     c = copy.deepcopy(content)
@@ -394,6 +695,22 @@ def observe(m, content, pts):
     return out
 
 
+_jac_methods = None
+
+
+def jac_methods():
+    """the methods of `Scipy.method`'s Literal (read from the source by the translator) whose scipy solver takes a
+    Jacobian — "every integrator method that uses a Jacobian" """
+    global _jac_methods
+    if _jac_methods is None:
+        import inspect
+
+        from scipy.integrate._ivp.ivp import METHODS
+
+        _jac_methods = [m for m in T.scipy_methods(REPO) if "jac" in inspect.signature(METHODS[m].__init__).parameters]
+    return _jac_methods
+
+
 def traj_worker(case):
     """thorough tier: trajectories with and without the Jacobian, per method"""
     import warnings
@@ -408,7 +725,7 @@ def traj_worker(case):
 
     content = with_decl(case["content"])
     res = {}
-    for meth in ("BDF", "Radau", "LSODA"):
+    for meth in jac_methods():
         row = {}
         for uj in (False, True):
             try:
@@ -944,6 +1261,7 @@ def run(ctx):
             judge_all(ctx, case, R, M)
         if len(ctx.violations) > 20:
             break
+    history_stratum(ctx, rng)
     piecewise_stratum(ctx)
     # trajectories: quick = the two corpus models that convert; thorough = generated ones incl. stiff
     tcases = [dict(c, t_end=2) for c in corpus() if c["tag"] in ("jac-closure", "decl-order")]
@@ -961,6 +1279,68 @@ def run(ctx):
         ctx.violation({"trajectories": len(tcases)}, "no trajectory run ever called the Jacobian", "trajectory stratum is vacuous")
 
 
+def history_stratum(ctx, rng):
+    """Simulator histories (state machine of Model/C12Sim.lean, theorem C12_sim_history): fixed histories on the corpus
+    models first (seed-independent), then generated ones"""
+    cases = []
+    fixed = [
+        [["call", "0", None], ["set", None, "7", "update_parameter", None], ["call", "0", None],
+         ["set", None, "ORIG", "update_parameters", None], ["call", "0", None], ["reinit", "clear_results"], ["call", "1", None]],
+        [["set", None, "3", "model", None], ["call", "0", None], ["reinit", "update_variable"],
+         ["set", None, "SCALE2", "scale_parameter", "2"], ["call", "2", None], ["set", None, "SCALE4", "scale_parameters", "1/2"],
+         ["call", "0", None]],
+    ]
+    for c in corpus():
+        # F-C12-5's shape: a reaction gets another rate law through `sim.model`, then the integrator calls the Jacobian
+        cc = c["content"]
+        if cc["rxns"] and should_convert(cc) == "ok" and all("py" not in f for f in _fns_of(cc)):
+            k, r = cc["rxns"][0]
+            plainp = [x for x, v in cc["pars"] if "v" in v]
+            base = [x for x, _ in cc["vars"]] + plainp
+            new = fn_ref("mass_action_2s", [base[0], base[-1], base[0]])
+            pt = ["2" for _ in cc["vars"]]
+            cases.append({"content": cc, "hist": [["call", "0", pt], ["edit", {"op": "update_reaction", "name": k, "fn": new}],
+                                                  ["call", "0", pt], ["reinit", "clear_results"], ["call", "1", pt]]})
+            # a recompilation that fails (the edited model takes `time`), the call repeated, then a model that converts again
+            bad = fn_ref("mass_action_1s", [base[0], "time"])
+            cases.append({"content": cc, "hist": [["edit", {"op": "update_reaction", "name": k, "fn": bad}], ["call", "0", pt],
+                                                  ["call", "0", pt],
+                                                  *([["set", plainp[-1], "3", "update_parameter", None]] if plainp else []),
+                                                  ["call", "0", pt],
+                                                  ["edit", {"op": "update_reaction", "name": k, "fn": new}], ["call", "1", pt]]})
+        plain = [(k, v["v"]) for k, v in c["content"]["pars"] if "v" in v]
+        if not plain:
+            continue
+        k, orig = plain[0]
+        for h in fixed:
+            cur = Fraction(orig)
+            ops = []
+            for op in h:
+                op = list(op)
+                if op[0] == "call":
+                    op[2] = ["2" for _ in c["content"]["vars"]]
+                elif op[0] == "set":
+                    op[1] = k
+                    if op[2] == "ORIG":
+                        cur = Fraction(orig)
+                    elif op[2].startswith("SCALE"):
+                        cur = cur * Fraction(op[4])
+                    else:
+                        cur = Fraction(op[2])
+                    op[2] = num(cur)
+                ops.append(op)
+            cases.append({"content": c["content"], "hist": ops})
+    for i in range(ctx.n(70, 1500)):
+        c = gen_content(rng, rational=(i % 3 != 0), p_odd=0.15)
+        cases.append({"content": c, "hist": gen_hist(rng, c, rng.randint(3, 9))})
+    Rs = pool().map(hist_worker, cases, chunksize=4)
+    Ms = driver.call_batch([hist_req(c) for c in cases]) if ctx.driver_ok else [None] * len(cases)
+    for case, R, M in zip(cases, Rs, Ms):
+        judge_hist(ctx, case, R, M)
+        if len(ctx.violations) > 20:
+            break
+
+
 def piecewise_stratum(ctx):
     """oracle-only (M = None): models whose rate laws switch on comparisons, evaluated exactly at, just below and
     just above every threshold; the lambdified symbolic equations must equal the numeric right-hand side"""
@@ -973,7 +1353,8 @@ def piecewise_stratum(ctx):
 
     from . import c12_pwlib as L
 
-    specs = [(L.pw_le, 1), (L.pw_lt, 1), (L.pw_ge, 1), (L.pw_gt, 1), (L.pw_window, 2), (L.pw_window2, 2), (L.pw_elif, 2)]
+    specs = [(L.pw_le, 1), (L.pw_lt, 1), (L.pw_ge, 1), (L.pw_gt, 1), (L.pw_window, 2), (L.pw_window2, 2), (L.pw_elif, 2),
+             (L.pw_rebind, 1), (L.pw_rebind_arg, 1), (L.pw_rebind_tmp, 2), (L.pw_rebind_elif, 2)]
     for (fn, nthr), (lo, hi, k) in itertools.product(specs, [(1.0, 3.0, 2.0), (2.0, 5.0, 0.5), (0.0, 4.0, 3.0)]):
         m = Model().add_variable("x", 1.0).add_variable("y", 0.0).add_parameter("k", k).add_parameter("lo", lo)
         m.add_parameter("hi", hi)
@@ -1001,6 +1382,13 @@ def piecewise_stratum(ctx):
 
 def replay(ctx, rp):
     case = rp["case"]
+    if "hist" in case:
+        case = {"content": case["content"], "hist": case["hist"]}
+        R = hist_worker(case)
+        M = driver.call_batch([hist_req(case)])[0] if ctx.driver_ok else None
+        print("R =", R, "\nM =", None if M is None else M["hist"])
+        judge_hist(ctx, case, R, M)
+        return
     if "t_end" in case:
         T_ = traj_worker(case)
         print("T =", T_)
